@@ -12,7 +12,10 @@ harness/rngdrv.c, preceded by a directive comment
     #! kind=corr mode=seq|conc              integer-only; implementation vs. the regenerated Lean model, every line
 
 `mode`: seq = every run on its own fresh thread, one after the other; conc = all runs at once on their own threads;
-main = all runs after each other on the main thread (state carries over: earlier runs are history of later ones).
+main = all runs after each other on the main thread (state carries over: earlier runs are history of later ones);
+ctx = every run starts with `ctx main|thread|worker|mainafter|threadafter` (harness/rngdrv.c): main thread before any
+experiment, plain pthread, trial inside cimba_run_experiment on the library's worker threads, main thread / new pthread
+after an experiment.
 """
 import hashlib
 import os
@@ -54,12 +57,32 @@ MEMO_DISTS = {"std_gamma", "gamma", "std_beta", "beta", "PERT", "PERT_mod", "chi
 # apart — a sensitivity sweep with a tiny step, or a parameter computed along two floating-point routes): a cache that is
 # keyed on anything but the exact argument shows up as a dependence on the history.
 NEAR = [
-    ("std_gamma", [2.5], [0]), ("std_gamma", [0.75], [0]), ("gamma", [3.0, 2.0], [0]), ("chisquared", [5.0], [0]),
-    ("std_beta", [2.0, 3.0], [0, 1]), ("beta", [2.0, 3.0, -1.0, 4.0], [0, 1]), ("PERT", [1.0, 2.0, 6.0], [1]),
-    ("PERT_mod", [1.0, 2.0, 6.0, 4.0], [3]), ("F_dist", [3.0, 5.0], [0, 1]), ("std_t_dist", [4.0], [0]),
-    ("t_dist", [1.0, 2.0, 5.0], [2]), ("geometric", [0.3], [0]), ("negative_binomial", [3, 0.6], [1]), ("pascal", [2, 0.5], [1]),
+    ("std_gamma", [2.5], [0]), ("std_gamma", [0.75], [0]), ("std_gamma", [1.21], [0]), ("gamma", [3.0, 2.0], [0]),
+    ("gamma", [1.5, 2.0], [0]), ("chisquared", [5.0], [0]), ("chisquared", [3.0], [0]),
+    ("std_beta", [2.0, 3.0], [0, 1]), ("std_beta", [1.2, 1.7], [0, 1]), ("beta", [2.0, 3.0, -1.0, 4.0], [0, 1]),
+    ("PERT", [1.0, 2.0, 6.0], [1]), ("PERT_mod", [1.0, 2.0, 6.0, 4.0], [3]), ("F_dist", [3.0, 5.0], [0, 1]),
+    ("std_t_dist", [4.0], [0]), ("std_t_dist", [2.5], [0]), ("t_dist", [1.0, 2.0, 5.0], [2]),
+    ("geometric", [0.3], [0]), ("negative_binomial", [3, 0.6], [1]), ("pascal", [2, 0.5], [1]),
 ]
-NEAR_DELTAS = [0.0, 4e-10, -4e-10, 7e-10, 2e-10, -9e-10, 1.5e-9]
+# additive differences, and ("ulp", k): the k-th neighbouring double (nextafter) — a tolerance of DBL_EPSILON in a cache test
+# only bites for adjacent doubles (1.21 vs 1.1 * 1.1)
+NEAR_DELTAS = [0.0, 4e-10, -4e-10, 7e-10, 2e-10, -9e-10, 1.5e-9, ("ulp", 1), ("ulp", -1), ("ulp", 1), ("ulp", -1), ("ulp", 2)]
+# memoised samplers at a BOUNDARY of their parameter range, where a prologue may take a different path (geometric: p = 1,
+# `log(1 - p)` is log 0): (name, interior parameters, boundary parameters)
+BOUNDARY = [("geometric", [0.3], [1.0]), ("geometric", [0.75], [1.0]), ("negative_binomial", [3, 0.6], [3, 1.0]),
+            ("pascal", [2, 0.5], [2, 1.0])]
+
+
+def ulp_step(v, k):
+    import struct
+    b = struct.unpack("<q", struct.pack("<d", float(v)))[0]
+    return struct.unpack("<d", struct.pack("<q", b + k if v > 0 else b - k))[0]
+
+
+def perturb(v, d):
+    return ulp_step(v, d[1]) if isinstance(d, tuple) else v + d
+
+
 # which `dist` operations reach a memoising function directly, as (name, parameters from the memo key x)
 MEMO_OPS = {
     "cmb_random_std_gamma": [("std_gamma", lambda x: [x]), ("gamma", lambda x: [x, 2.0]), ("chisquared", lambda x: [2.0 * x]),
@@ -72,7 +95,7 @@ def near_op(r, entry=None, delta=None, n=None):
     name, base, idx = entry or r.choice(NEAR)
     ps = list(base)
     for i in idx:
-        ps[i] = ps[i] + (r.choice(NEAR_DELTAS) if delta is None else delta)
+        ps[i] = perturb(ps[i], r.choice(NEAR_DELTAS) if delta is None else delta)
     return "dist %s %d %s" % (name, n if n is not None else r.choice([1, 2, 5]), " ".join(fmt(p) for p in ps))
 
 
@@ -180,12 +203,19 @@ def gen_seedalone(r):
     if near:
         # the same memoising sampler before and after seeding, its key a hair (< 1e-9) off
         calls.insert(r.randrange(len(calls) + 1), near_op(r, near, delta=r.choice(NEAR_DELTAS)))
+    bnd = r.choice(BOUNDARY) if r.random() < 0.15 else None
+    if bnd:
+        # a memoised sampler at the boundary of its parameter range after the thread used an interior value (and the reverse)
+        flipd = r.random() < 0.3
+        calls.insert(r.randrange(len(calls) + 1), "dist %s %d %s" % (bnd[0], r.choice([3, 5]), " ".join(fmt(x) for x in bnd[1 if flipd else 2])))
     nh = r.choice([1, 2, 3])
     runs = [["seed %d" % seed, "mark"] + calls]
     for _ in range(nh):
         h = gen_history(r)
         if near:
             h.insert(r.randrange(len(h) + 1), near_op(r, near))
+        if bnd:
+            h.append("dist %s 1 %s" % (bnd[0], " ".join(fmt(x) for x in bnd[r.choice([1, 1, 2])])))
         if r.random() < 0.5:
             h.append("flip %d" % r.choice([1, 3, 17, 63, 65]))       # leave a partially consumed bit cache
         if r.random() < 0.3:
@@ -193,6 +223,36 @@ def gen_seedalone(r):
         runs.append(h + ["seed %d" % seed, "mark"] + calls)
     mode = r.choice(["seq", "seq", "conc", "conc", "main"])
     return Scenario("seedalone", mode, runs)
+
+
+# Samplers at parameters whose RESULTS reach the subnormal range (the parameters themselves are normal numbers and nothing
+# raises FE_INVALID / FE_DIVBYZERO, which cimba_run_experiment makes trap): a thread that flushes subnormals to zero or treats
+# them as zero returns other values, and its rejection loops draw a different number of raw words.
+SUBNORMAL_OPS = [
+    "distd weibull 40000 0.01 1.0", "distd lognormal 3000 -725.0 10.0", "distd uniform 2000 0.0 1e-308", "dist uniform 4 0.0 1e-308",
+    "distd exponential 3000 3e-308", "distd normal 3000 0.0 3e-308", "distd rayleigh 3000 3e-308", "dist lognormal 6 -725.0 10.0",
+    "distd erlang 2000 2 3e-308", "distd gamma 2000 2.5 2e-308", "distd triangular 2000 0.0 1e-308 2e-308",
+]
+CTX_SAFE_DISTS = ["random", "uniform", "triangular", "std_normal", "normal", "lognormal", "logistic", "std_exponential", "exponential",
+                  "erlang", "hypoexponential", "hyperexponential", "std_gamma", "gamma", "weibull", "rayleigh", "bernoulli",
+                  "binomial", "poisson", "dice", "loaded_dice", "alias", "flip", "chisquared", "std_beta", "PERT"]
+
+
+def gen_fpctx(r):
+    """Which thread makes the calls: the same seed and calls on the main thread before any experiment, on a plain pthread,
+    in trials run by cimba_run_experiment's worker threads, on the main thread and on a new pthread after the experiment.
+    Compared bit-exactly after `mark`, including the value-affecting bits of the thread's MXCSR and the next raw words."""
+    seed = seed_value(r)
+    calls = ["fpenv"]
+    for _ in range(r.choice([2, 3, 4])):
+        k = r.random()
+        calls.append(r.choice(SUBNORMAL_OPS) if k < 0.6 else (dist_op(r, name=r.choice(CTX_SAFE_DISTS)) if k < 0.85 else int_op(r)))
+    calls += ["raw 2", "fpenv"]
+    runs = []
+    for where in ["main", "thread", "worker", "worker", "worker", "mainafter", "threadafter"]:
+        h = [op for op in gen_history(r, allow_dist=False) if r.random() < 0.5]
+        runs.append(["ctx " + where] + h + ["seed %d" % seed, "mark"] + calls)
+    return Scenario("seedalone", "ctx", runs)
 
 
 def gen_corr(r, big=False):
@@ -250,6 +310,8 @@ def nontrivial(sc):
                 if w[0] == "seed" and drew:
                     return True
         return False
+    if sc.mode == "ctx":
+        return any(op.startswith("distd") or op.startswith("dist") for op in sc.runs[0])
     hist = any(run.index("mark") > 1 for run in sc.runs if "mark" in run)
     cached = any(op.startswith("flip") or (op.startswith("dist") and op.split()[1] in MEMO_DISTS | {"flip"})
                  for run in sc.runs for op in run)
@@ -295,8 +357,11 @@ def judge_seedalone(c_exe, sc):
         d = vlib.first_diff(ref, am)
         if d is not None:
             op = sc.runs[0][sc.runs[0].index("mark") + 1 + d] if d < len(ref) else "?"
+            where = sc.mode
+            if sc.mode == "ctx":
+                where = "%s vs %s" % (sc.runs[0][0], sc.runs[i][0])
             return ("after the same seed, `%s` returned different values in run 0 and run %d (%s): '%s' vs '%s'" %
-                    (op, i, sc.mode, ref[d] if d < len(ref) else "<nothing>", am[d] if d < len(am) else "<nothing>"))
+                    (op, i, where, ref[d] if d < len(ref) else "<nothing>", am[d] if d < len(am) else "<nothing>"))
     return None
 
 
@@ -394,12 +459,14 @@ def shrink(sc, still_fails, budget=150):
 
 
 MEMO_BASES = {"cmb_random_geometric": [0.125, 0.3, 0.75]}
-MEMO_BASES_DEFAULT = [2.5, 3.0, 1.0, 7.0, 0.5]
+MEMO_BASES_DEFAULT = [2.5, 1.0, 1.21, 3.0, 7.0, 0.5]
+# the documented domain of the memo key (keys outside it are not inputs of the property)
+MEMO_VALID = {"cmb_random_geometric": lambda p: 0.0 < p <= 1.0, "cmb_random_std_gamma": lambda a: a > 0.34}
 LEAN_FN = {"sqrt": "Float.sqrt", "log": "Float.log", "fabs": "Float.abs", "exp": "Float.exp", "floor": "Float.floor",
            "ceil": "Float.ceil", "log2": "Float.log2", "log10": "Float.log10", "cbrt": "Float.cbrt"}
 
 
-def lean_memo_disagreements(memo_meta, limit=12):
+def lean_memo_disagreements(memo_meta, limit=80):
     """When a memo theorem of Props/C15.lean fails: evaluate the REGENERATED memo prologues in Lean with IEEE doubles
     (FloatOps Float: literals by value, libm functions by name) on a grid of keys — equal, one ulp apart, a few 1e-10
     apart, 1e-6 apart, far apart — and list the pairs (x, y) for which the step lemma of the theorem is false:
@@ -424,9 +491,19 @@ def lean_memo_disagreements(memo_meta, limit=12):
             continue
         f = m["function"]
         keys = []
+        # the literals the prologue itself compares against are the boundaries of its paths: keys at and next to them first
+        body = gen[gen.index("def %s_prologue" % f):]
+        body = body[:body.index("\n\n")] if "\n\n" in body else body
+        for l in dict.fromkeys(re.findall(r'o\.lit "([^"]*)"', body)):
+            try:
+                v = float(l)
+            except ValueError:
+                continue
+            keys += [v, ulp_step(v, -1) if v else v, ulp_step(v, 1) if v else v]
         for b in MEMO_BASES.get(f, MEMO_BASES_DEFAULT):
-            up = struct.unpack("<d", struct.pack("<Q", struct.unpack("<Q", struct.pack("<d", b))[0] + 1))[0]
-            keys += [b, b + 4e-10, b - 4e-10, b + 9e-10, up, b + 1e-6]
+            keys += [b, b + 4e-10, b - 4e-10, b + 9e-10, ulp_step(b, 1), ulp_step(b, -1), b + 1e-6]
+        valid = MEMO_VALID.get(f, lambda x: x > 0.34)
+        keys = [k for k in dict.fromkeys(keys) if valid(k)]
         wanted.append(f)
         same = " && ".join("a.%s.toBits == b.%s.toBits" % (n, n) for n in m["statics"])
         text += ["def keys_%s : List Float := [%s]" % (f, ", ".join(lean_float(k) for k in keys)),
@@ -442,6 +519,13 @@ def lean_memo_disagreements(memo_meta, limit=12):
         x = struct.unpack("<d", struct.pack("<Q", int(m.group(2))))[0]
         y = struct.unpack("<d", struct.pack("<Q", int(m.group(3))))[0]
         res.setdefault(m.group(1), []).append((x, y))
+    for f in res:                                   # a spread over the keys x: at most 3 partners each, 12 pairs
+        per, pick = {}, []
+        for x, y in res[f]:
+            if per.get(x, 0) < 3:
+                per[x] = per.get(x, 0) + 1
+                pick.append((x, y))
+        res[f] = pick[:12]
     return res, out
 
 
